@@ -67,10 +67,10 @@ fn replay_c10(part: &str, input: &Value) -> Option<Result<Result<(), Viol>, Stri
 }
 
 fn run_c11(ctx: &RunCtx) -> Vec<PartOutcome> {
-    mbchecks::run_spec(ctx, &mbchecks::C11, 6000, 100000)
+    mbchecks::run_c11(ctx)
 }
 fn replay_c11(part: &str, input: &Value) -> Option<Result<Result<(), Viol>, String>> {
-    mbchecks::replay_spec(&mbchecks::C11, part, input)
+    mbchecks::replay_c11(part, input)
 }
 
 fn run_c15(ctx: &RunCtx) -> Vec<PartOutcome> {
